@@ -23,6 +23,15 @@ theorem normValue_str (o : Opts) (s : String) (h : o.varexp = false) :
 theorem normValue_dur (o : Opts) (t : String) : normValue o (.dur t) = .ok (.prim (.str t)) := by
   unfold normValue; rfl
 
+/-- a regular expression - held by pointer or by value (the repaired D56), the model does not tell them apart - is its text -/
+theorem normValue_regex (o : Opts) (t : String) : normValue o (.regex t) = .ok (.prim (.str t)) := by
+  unfold normValue; rfl
+
+/-- a value no setting can be made from (channel, function, complex number, uintptr - the repaired D58) is an error of the
+input, whatever the options: never a value, never a panic -/
+theorem normValue_unsupported (o : Opts) : normValue o .unsupported = Outcome.raise .typeMismatch := by
+  unfold normValue; rfl
+
 /-- Two definitions of one setting inside one input, neither nil and not both containers, are a
 duplicate — in either order. -/
 theorem combine_duplicate (o v : Val) (hv : v.isNilPrim = false) (ho : o.isNilPrim = false)
